@@ -59,6 +59,30 @@ theorem path_resolves (env : Env) (steps : List Index) (rp : List Nat) (base : E
       | (.ok v, st1, ev) => (resolve v steps, st1, ev)
       | other => other := Reval.path_resolves env steps rp base st
 
+/-- access paths compose: `base.s₁.s₂` addresses, inside what `base.s₁` addresses, exactly what `s₂` addresses
+    there; an error on the way is final (no later step can recover or substitute data) -/
+theorem path_composes (v : Value) (s1 s2 : List Index) :
+    resolve v (s1 ++ s2) = match resolve v s1 with
+      | .ok w => resolve w s2
+      | other => other := resolve_append v s1 s2
+
+/-- every path from None ends in None — a step into None never fails and never yields data from elsewhere -/
+theorem path_from_none_is_none (steps : List Index) : resolve .none steps = .ok .none := resolve_none steps
+
+/-- a non-empty path into a scalar is a type error, whatever its steps are -/
+theorem path_into_scalar_fails (v : Value) (i : Index) (rest : List Index)
+    (hm : v.ty ≠ .map) (hv : v.ty ≠ .vec) (hn : v.ty ≠ .none) :
+    resolve v (i :: rest) = .err .invalidType := resolve_scalar v i rest hm hv hn
+
+/-- a path that leaves the data (absent key, position out of range) yields None from there on, never an
+    error and never a neighbouring element -/
+theorem path_past_the_data (m : List (Str × Value)) (xs : List Value) (k : Str) (n : Nat) (rest : List Index)
+    (hk : lookup m k = none) (hn : xs.length ≤ n) :
+    resolve (.map m) (.key k :: rest) = .ok .none ∧ resolve (.vec xs) (.pos n :: rest) = .ok .none := by
+  constructor
+  · simp [resolve, resolveStep, hk, resolve_none]
+  · simp [resolve, resolveStep, List.getElem?_eq_none hn, resolve_none]
+
 /-! non-vacuity -/
 def demoFacts : Value :=
   .map [(['A'], .int 1), (['a'], .vec [.int 10, .map [(['b'], .str ['x'])]]), ("facts".toList, .int 2)]
@@ -66,5 +90,9 @@ example : (eval ⟨demoFacts, [], [], Oracle.empty⟩ [] (pathExpr (.ref ['a']) 
 example : (eval ⟨demoFacts, [], [], Oracle.empty⟩ [] (pathExpr (.ref ['a']) [.pos 2, .key ['b']]) St.init).1 = .ok .none := by decide
 example : (eval ⟨demoFacts, [], [], Oracle.empty⟩ [] (.ref ['b']) St.init).1 = .err (.unknownRef ['b']) := by decide
 example : (eval ⟨demoFacts, [], [], Oracle.empty⟩ [] (.ref "facts".toList) St.init).1 = .ok demoFacts := by decide
+
+example : resolve demoFacts [.key ['a'], .pos 1, .key ['b']] = .ok (.str ['x']) := by decide
+example : resolve demoFacts [.key ['A'], .pos 0] = .err .invalidType := by decide
+example : resolve demoFacts [.key ['a'], .pos 7, .key ['b'], .pos 3] = .ok .none := by decide
 
 end Reval.C10
